@@ -415,6 +415,35 @@ def c15_vm(rng, tier):
     req = E * r * 3e-3 / L
     if relerr(v, np.full((1, 2), req)) > 1e-12:
         out.append(_fail("tube bending stress != E r dkappa", v, req))
+    # the same closed forms on elements with sweep and dihedral (any orientation that is not along the global x axis)
+    for _ in range(4):
+        sw = np.radians(rng.uniform(-40, 60)); dh = np.radians(rng.uniform(-10, 20)) * float(rng.integers(2))
+        e = np.array([np.sin(sw) * np.cos(dh), np.cos(sw) * np.cos(dh), np.sin(dh)]); e /= np.linalg.norm(e)
+        n0 = np.cross(e, np.array([1.0, 0.0, 0.0])); n0 /= np.linalg.norm(n0)
+        n1 = np.cross(e, n0)
+        ang = rng.uniform(0, 2 * np.pi); nb = np.cos(ang) * n0 + np.sin(ang) * n1        # any direction normal to the element
+        P0 = rng.normal(size=3); nodes3 = np.array([P0, P0 + L * e])
+        case = dict(sweep_deg=float(np.degrees(sw)), dihedral_deg=float(np.degrees(dh)))
+        d = np.zeros((2, 6)); d[1, :3] = delta * e
+        v = _vm_tube(s2, nodes3, np.array([r]), d)
+        if not np.all(np.isfinite(v)) or relerr(v, np.full((1, 2), E * delta / L)) > 1e-10:
+            out.append(_fail("tube axial stress != E du / L on a swept element", v, E * delta / L, **case))
+        th = 2e-3
+        d = np.zeros((2, 6)); d[1, 3:] = th * e
+        v = _vm_tube(s2, nodes3, np.array([r]), d)
+        req = np.sqrt(3.0) * s["G"] * r * th / L
+        if not np.all(np.isfinite(v)) or relerr(v, np.full((1, 2), req)) > 1e-10:
+            out.append(_fail("tube torsion stress != sqrt(3) G r dtheta / L on a swept element (pure torsion)", v, req, **case))
+        d = np.zeros((2, 6)); d[1, 3:] = th * e; d[1, :3] = delta * e
+        v = _vm_tube(s2, nodes3, np.array([r]), d)
+        req = np.sqrt((E * delta / L) ** 2 + 3.0 * (s["G"] * r * th / L) ** 2)
+        if not np.all(np.isfinite(v)) or relerr(v, np.full((1, 2), req)) > 1e-10:
+            out.append(_fail("tube stress under torsion plus axial load != sqrt(sigma^2 + 3 tau^2) on a swept element", v, req, **case))
+        d = np.zeros((2, 6)); d[1, 3:] = 3e-3 * nb
+        v = _vm_tube(s2, nodes3, np.array([r]), d)
+        req = E * r * 3e-3 / L
+        if not np.all(np.isfinite(v)) or relerr(v, np.full((1, 2), req)) > 1e-10:
+            out.append(_fail("tube bending stress != E r dkappa on a swept element", v, req, **case))
     return out
 
 
